@@ -420,6 +420,11 @@ def negative_cases(prefix):
     add("m/root.ledger", {"m/root.ledger": "include ../common/*.ledger\n\ninclude sub/x.ledger\n", "common/a.ledger": "; a\n", "common/b.ledger": "; b\n",
                           "m/sub/x.ledger": "; x\n\ninclude ../../common/a.ledger\n"},
         dict(ok, delivered=4), "a glob match included again from a nested file through `..`")
+    # a deep chain: every file one directory further down includes the next (40 levels); nothing limits the depth of a split
+    deep = {"root.ledger": "; 0\n\ninclude n/f.ledger\n"}
+    for k in range(1, 41):
+        deep["n/" * k + "f.ledger"] = "; %d\n" % k + ("\ninclude n/f.ledger\n" if k < 40 else "")
+    add("root.ledger", deep, dict(ok, delivered=41), "a chain of 40 nested includes, each one directory deeper")
     # the include line is the very last thing of the file (no line end after it)
     add("root.ledger", {"root.ledger": "; a\n\ninclude b.ledger", "b.ledger": "; b\n"}, dict(ok, delivered=2), "include as the last line, ended by end of file")
     add("root.ledger", {"root.ledger": "include sub/*.ledger", "sub/a.ledger": "; a\n\ninclude ../c.ledger", "c.ledger": "; c"},
